@@ -227,6 +227,8 @@ struct log_distance
     const Pool* pool;
     ScalarType distance(int a, int b) const
     {
+        // a library that evaluates distances from several threads must not corrupt the log (the callback itself is pure)
+#pragma omp critical(c19_log)
         if (g_logging)
         {
             if (g_iters.empty())
